@@ -6,7 +6,7 @@ LEVEL_TEXT = ("Coq theorems over ALL schedules of the listener/WaitGroup/session
               "neither block nor panic, the retention scanner stops within a bounded number of its own steps) + correspondence of the "
               "model with real smtp.Server / pop3.Server on ephemeral ports, a real hub, store and retention scanner.")
 LEVEL_NOTE = ("The theorems are about coq/Model/Lifecycle.v and Model/Hub.v. Accept+wg.Add of the accept loop is ONE step of the model "
-              "(the window between Accept() returning and wg.Add in the serve goroutine is not modelled; it cannot be forced from outside). "
+              "(Model/LifecycleAccept.v has them as two steps, with the accept loop itself counted as coded after repair 0022: drain_exact_accept_loop; the harness forces the window by wrapping the loop's listener). "
               "The session's protocol dialogue is abstracted to positions (greeted … DATA in flight / DELE marked / UPDATE); the full dialogues are "
               "C01/C03/C13's. Not modelled: the kernel's listen backlog, timedExit's 15 s. The TLS handshake itself is not modelled, only its "
               "effect on the session count (a client failing the handshake of a ForceTLS POP3 server = accepted, started, ended). The tie between model and code is sampled.")
@@ -34,7 +34,7 @@ def nontrivial(kind, ins, outs):
         if "k" not in ops:
             return False
         k = ops.index("k")
-        return any(o[0] in "oO" for o in ops[:k])
+        return any(o[0] in "oOA" for o in ops[:k])
     if kind == "boot":
         return "1" in ins[0]
     if kind == "ret":
@@ -50,7 +50,7 @@ def shrink_candidates(inp):
     for i in range(len(ops) - 1, -1, -1):
         cand = ops[:i] + ops[i + 1:]
         # dropping the opening of a session drops its later ops too
-        if ops[i][0] in "oO":
+        if ops[i][0] in "oOA":
             sid = ops[i][1:].split(":")[0]
-            cand = [o for o in cand if not (o[0] in "pfaL" and o[1:].split(":")[0] == sid)]
+            cand = [o for o in cand if not (o[0] in "pfaLqe" and o[1:].split(":")[0] == sid)]
         yield parts[0] + " " + (",".join(cand) if cand else "-")
